@@ -39,6 +39,7 @@ def case_strategy(min_m=1):
         'pexp': st.integers(-6, 6),
         'kdef': st.integers(1, 3),
         'zmode': st.sampled_from(['consistent', 'arbitrary', 'zero']),
+        'store': st.sampled_from(['c', 'c', 'fortran', 'views']),
         'sub': st.integers(0, 2 ** 31 - 1),
     })
 
@@ -113,6 +114,20 @@ def build(case):
         z = np.zeros(m)
     else:
         z = rng.randn(m) * 10.0 ** rng.uniform(-3, 3)
+    st_ = case.get('store', 'c')
+    if st_ == 'fortran':          # same values, column-major storage
+        P, H, R = np.asfortranarray(P), np.asfortranarray(H), np.asfortranarray(R)
+    elif st_ == 'views':          # same values, non-contiguous views into larger buffers
+        def view2(a):
+            big = np.full((2 * a.shape[0], 2 * a.shape[1]), np.nan)
+            big[::2, ::2] = a
+            return big[::2, ::2]
+
+        def view1(a):
+            big = np.full(2 * len(a), np.nan)
+            big[::2] = a
+            return big[::2]
+        x, z, P, H, R = view1(x), view1(z), view2(P), view2(H), view2(R)
     return x, P, z, H, R
 
 
@@ -148,7 +163,7 @@ def _labels(ctx, case, condS):
     ctx.label(f"n={'1-2' if case['n'] < 3 else '3-8' if case['n'] <= 8 else '9-20'}",
               f"m={case['m']}", f"P={case['pclass']}", f"H={case['hclass']}",
               f"R={case['rclass']}", f"rexp={'<0' if case['rexp'] < 0 else '>=0'}",
-              f"condS={'<1e4' if condS < 1e4 else '<1e8' if condS < 1e8 else '>=1e8'}")
+              f"condS={'<1e4' if condS < 1e4 else '<1e8' if condS < 1e8 else '>=1e8'}", f"store={case.get('store', 'c')}")
 
 
 def run_posterior(case, ctx):
